@@ -186,8 +186,11 @@ def _tr_attr(num, d, undef, s):
 
 
 def trs_attrs_from_obj(o):
-    return {"twp": _tr_attr(o.twp_num, o.twp_ns, o.twp_undef, o.twp),
-            "rge": _tr_attr(o.rge_num, o.rge_ew, o.rge_undef, o.rge),
+    # the documented aliases .ns / .ew must say what .twp_ns / .rge_ew say ("?" makes the record fail otherwise)
+    ns = o.twp_ns if getattr(o, "ns", o.twp_ns) == o.twp_ns else "?"
+    ew = o.rge_ew if getattr(o, "ew", o.rge_ew) == o.rge_ew else "?"
+    return {"twp": _tr_attr(o.twp_num, ns, o.twp_undef, o.twp),
+            "rge": _tr_attr(o.rge_num, ew, o.rge_undef, o.rge),
             "sec": _tr_attr(o.sec_num, None, o.sec_undef, o.sec),
             "twprge": _chars(o.twprge)}
 
